@@ -482,6 +482,22 @@ def hostile_payloads(ctx, rng, n):
                 __import__(m)
             except ImportError:
                 pass
+    # ... and classes that ANOTHER connection of this process, one that does allow custom exceptions, has legitimately received a
+    # moment ago: what one connection was allowed to rebuild gives the others no permission
+    box = {}
+    trusting = vnet.ServedPair(rpyc.VoidService(), make_service(box)(), cfg_a=dict(instantiate_custom_exceptions=True, import_custom_exceptions=True))
+    try:
+        for raised in (CustomErr("legitimate", 1), CustomBase("legitimate", 2)):
+            box["exc"] = raised
+            try:
+                trusting.a.root.throw()
+            except BaseException as e:
+                if isinstance(e, type(raised)):
+                    ctx.count("custom_classes_received_by_a_trusting_connection_first")
+                    aliases.append((type(raised).__module__, type(raised).__name__))
+    finally:
+        box.clear()
+        trusting.close()
     forced = [((m, k), ("arg",), (), "tb") for (m, k) in aliases]
     pair = None
     try:
